@@ -73,6 +73,12 @@ func numGrammarEval(cs numCase) []core.Finding {
 		return []core.Finding{{Class: "number:panic:" + numShape(cs.Text), What: fmt.Sprintf("NewNumber(%q) panicked: %s", cs.Text, firstLineStr(p))}}
 	}
 	got := err == nil && n != nil
+	if !got && cs.Want && expBeyondLimit(cs.Text) {
+		// RFC 8259 section 9: "An implementation may set limits on the range and precision of numbers."
+		// NewNumber materialises the exponent as digits and refuses exponents beyond +-10^6 (a repair of an
+		// out-of-memory crash): such texts have no verdict here
+		return nil
+	}
 	if got != cs.Want {
 		verb := "rejects"
 		if got {
@@ -86,6 +92,16 @@ func numGrammarEval(cs numCase) []core.Finding {
 			What: fmt.Sprintf("NewNumber(%q) %s it; the JSON number grammar says accept=%v", cs.Text, verb, cs.Want)}}
 	}
 	return nil
+}
+
+// expBeyondLimit: the text has an exponent whose absolute value exceeds 10^6.
+func expBeyondLimit(t string) bool {
+	i := strings.IndexAny(t, "eE")
+	if i < 0 {
+		return false
+	}
+	d := strings.TrimLeft(strings.TrimLeft(t[i+1:], "+-"), "0")
+	return len(d) > 7 || (len(d) == 7 && d > "1000000")
 }
 
 // numGrammarClass names the grammar production at which a text stops or that it uses, coarsely:
